@@ -27,6 +27,10 @@ CLAIMED = {
    text="Life-cycle decision tables (scope gate, constructor, MaybeConfigure, CheckApplies, window, Execute) extracted from SSA and compared with the specification on source × scope × configuration outcome × applicability × window position for all three kinds; recover wrapper shape; census of framework stores into results; freshness of all 377 constructors. Decides ordering, gating, pass-through and instance identity for every input; the meaning of the scope predicates and of each lint's CheckApplies is treated as an oracle and not decided.",
    note=TRUST+"util.IsServerAuthCert/IsEmailProtectionCert/IsCodeSigning, Configuration.MaybeConfigure and the lint methods are uninterpreted oracles.",
    technique="decision-table extraction (path enumeration over go/ssa) vs. spec table; SSA freshness analysis of constructors; field-write census", ref="§3 C04"),
+ "C01": dict(level="other",
+   text="Decides, for every input, the construction of the result set: decision tables of the three execute* loops (unrolled twice, only the index loop-carried) show exactly one Execute/metadata/store/flag-update per registered lint with no skipping branch; a field-write census shows nobody else writes Results or the flags (flags only ever set to true); the status-flow analysis shows none of the 377 Execute methods nor the framework's can return nil or a status other than the seven named ones (zero value, literal without Status, conversion, arithmetic are violations or undecided); the flag switch is compared with the contract on statuses -1..8; the Lint*Ex entry points' nil guards, default registry and Version stamp (= module major version) and the recover net are decided from their decision tables. 'No hang' and panic-freedom of CRL/OCSP lints are outside this check.",
+   note=TRUST+"Induction over the range loop relies on the checked fact that only the index is carried between iterations. Termination of lint bodies is not decided.",
+   technique="decision-table extraction over go/ssa (bounded loop unrolling + induction side condition), interprocedural status/nil-flow, field-write census", ref="§3 C01"),
 }
 
 NOT_YET = "check not built yet in this session (see DESIGN.md §3 for the planned static rule)"
